@@ -366,6 +366,7 @@ func (e *Exec) evalConversion(st *State, call *ast.CallExpr, to types.Type) Term
 	case v.Sort == SStr && ts == SBytes:
 		r := app(SBytes, "bytes_of_str", v)
 		e.Ctx.Assume(st.PC, Eq(app(SInt, "bytes_len", r), app(SInt, "str_len", v)))
+		e.Ctx.Assume(st.PC, Eq(app(SStr, "str_of_bytes", r), v)) // string([]byte(s)) == s
 		return r
 	case v.Sort == SInt && ts == SStr:
 		e.Ctx.DeclareFun("str_of_rune", []string{SInt}, SStr)
